@@ -285,6 +285,17 @@ func execC19(c Case) string {
 			return "err"
 		}
 		return "ok:" + idsOf(r.Coins())
+	case "simple": // simple <values> <index> <confs>: SimpleCoin reads its transaction
+		tx := wire.NewMsgTx(1)
+		for j, v := range splitOr(a[0], ",") {
+			tx.AddTxOut(wire.NewTxOut(atoi64(v), []byte{0x51, byte(j)}, wire.TokenData{}))
+		}
+		btx := bchutil.NewTx(tx)
+		idx := atoi(a[1])
+		c := &coinset.SimpleCoin{Tx: btx, TxIndex: uint32(idx), TxNumConfs: atoi64(a[2])}
+		th := tx.TxHash()
+		return i64s(int64(c.Value())) + " " + i64s(c.ValueAge()) + " " + u64s(uint64(c.Index())) + " " + i64s(c.NumConfs()) + " " +
+			b2s(*c.Hash() == th) + " " + hx(c.PkScript())
 	case "cs": // cs <ops>
 		cs := coinset.NewCoinSet(nil)
 		next := 0
@@ -330,6 +341,14 @@ func execC19(c Case) string {
 func genC19(r *Rng, tier string, emit func(Case)) {
 	e := func(op, cls string, args ...string) { emit(Case{op, cls, args}) }
 	sels := []string{"minindex", "minnumber", "maxvalueage", "minpriority"}
+	for i := 0; i < 40; i++ {
+		k := 1 + r.Intn(4)
+		vs := []string{}
+		for j := 0; j < k; j++ {
+			vs = append(vs, i64s(int64(r.U64()%2100000000000000)))
+		}
+		e("simple", "coin", strings.Join(vs, ","), itoa(r.Intn(k)), i64s(int64(r.Intn(1000))))
+	}
 	// witnesses of the three repaired defects
 	e("sel", "fixed1", "minpriority", "1", "0", "500", "20", "10:1,10:100")
 	e("sel", "fixed2", "minpriority", "10", "10", "0", "100", "100:10,1:1")
